@@ -846,6 +846,22 @@ func runFacts(repo, outdir string) error {
 	}
 	lm.raw("/-- migrate.CopyStable knownIntKeys -/\ndef knownIntKeys : List String := " + strList(keys["knownIntKeys"]) + "\n\n")
 	lm.raw("/-- migrate.CopyStable knownKeys -/\ndef knownKeys : List String := " + strList(keys["knownKeys"]) + "\n\n")
+	{ // does CopyLogs return early for an empty source?
+		cl, err := migP.fn("", "CopyLogs")
+		if err != nil {
+			return err
+		}
+		guard := false
+		for _, st := range cl.Body.List {
+			if ifs, ok := st.(*ast.IfStmt); ok {
+				c := strings.ReplaceAll(migP.src(ifs.Cond), " ", "")
+				if (c == "last==0" || c == "last<first" || c == "last==0&&first==0" || c == "first==0&&last==0") && strings.Contains(migP.src(ifs.Body), "return nil") {
+					guard = true
+				}
+			}
+		}
+		lm.raw(fmt.Sprintf("/-- CopyLogs returns nil early when the source log is empty -/\ndef copyLogsEmptyGuard : Bool := %v\n\n", guard))
+	}
 	if err := lm.finish(outdir); err != nil {
 		return err
 	}
